@@ -304,11 +304,13 @@ def w_rules(ctx):
                     if l.kind == "call" and re.search(r"Params::<'a>::parse$", l.detail["callee"] or ""):
                         mm = re.search(r"parsed/_\d+\.(\w+)|\.(\w+) <- [^<]*Params", " ".join(l.chain))
                         for ch in l.chain:
-                            m2 = re.search(r"parsed(?:/_\d+)?\.(\w+)$", ch)
+                            m2 = re.search(r"(?:^|:)(?:\w+/)?_\d+\.([A-Za-z_]\w*)$", ch)
                             if m2:
                                 fld_names.add(m2.group(1))
                 if flds:
                     want = cb.local_name(j + 2)
+                    if not fld_names:
+                        R.uncovered.append("%s: by-name field of argument %d could not be read off the trace" % (key, j))
                     R.check(fld_names == {want} if fld_names else True, "C17.W2", key + ":server-by-name#%d" % j, "argument %d comes from the by-name field of parameter %d" % (j, j), "argument %d of %s::%s is filled from by-name field %s (parameter %d is `%s`)" % (j, tname, rust, sorted(fld_names), j, want), where(scall))
                 # ---- W3 optional tails
                 ty = None
